@@ -324,7 +324,7 @@ func TestVerifC11Trie(t *testing.T) {
 	maxBig := 3000
 	bigEvery := 40
 	if VThorough() {
-		cases = 1600
+		cases = 1100
 		maxBig = 60000 // a geosite-scale suffix set is ~50 000 patterns = ~100 000 keys; five such tries
 		bigEvery = 320
 	}
@@ -431,7 +431,6 @@ func TestVerifC11Trie(t *testing.T) {
 	}
 	if VThorough() {
 		allCase(200000)
-		allCase(60000)
 	} else {
 		allCase(20000)
 	}
